@@ -178,3 +178,29 @@ func compile(pat string) (*syntax.Prog, error) {
 	}
 	return syntax.Compile(re.Simplify())
 }
+
+// WhiteSpace returns the runes strings.TrimSpace / unicode.IsSpace treat as white space.
+func WhiteSpace() []rune {
+	var out []rune
+	for r := rune(0); r <= 0x3000; r++ {
+		if unicode.IsSpace(r) {
+			out = append(out, r)
+		}
+	}
+	return out
+}
+
+// LowerPreimageRunes returns every rune x with unicode.ToLower(x) occurring in s (including the runes of s).
+func LowerPreimageRunes(s string) []rune {
+	want := map[rune]bool{}
+	for _, r := range s {
+		want[r] = true
+	}
+	var out []rune
+	for x := rune(0); x <= unicode.MaxRune; x++ {
+		if want[unicode.ToLower(x)] {
+			out = append(out, x)
+		}
+	}
+	return out
+}
